@@ -197,7 +197,7 @@ class StackMonitor(Monitor):
 
 def jobs(tier):
     js = []
-    Ns = (3, 4) if tier == "quick" else (2, 3, 4, 5)
+    Ns = (3, 4) if tier == "quick" else (2, 3, 4, 5, 6)
     for N in Ns:
         for ctxs in (2, 1):
             K = 3 * N + 4
